@@ -579,3 +579,25 @@ bitflags::bitflags! {
         const BLOCK_FILTER = 0b100000;
     }
 }
+
+#[cfg(feature = "verif-hooks")]
+/// verif-hooks: `Identify::verify` (the check `IdentifyCallback::received_identify` applies to the
+/// `identify` bytes of a peer's IdentifyMessage) for a node named `name`
+pub(crate) fn verif_identify_verify(name: &str, data: &[u8]) -> Option<(u64, String)> {
+    Identify::new(name.to_owned(), Flags::all(), String::from("verif"))
+        .verify(data)
+        .map(|(flags, version)| (flags.bits(), version))
+}
+
+#[cfg(feature = "verif-hooks")]
+/// verif-hooks: `IdentifyMessage::decode` exactly as `IdentifyProtocol::received` calls it:
+/// (number of listen addresses kept, observed address, the identify bytes)
+pub(crate) fn verif_identify_decode(data: &[u8]) -> Option<(usize, String, Vec<u8>)> {
+    IdentifyMessage::decode(data).map(|m| {
+        (
+            m.listen_addrs.len(),
+            m.observed_addr.to_string(),
+            m.identify.to_vec(),
+        )
+    })
+}
